@@ -746,7 +746,8 @@ def oracle_fit_structure(mon, a0, b0, fl_rfi, fl_mef, out):
     mon.chk(len(a0) == len(b0) and len(a0) >= 3, 'fit:too-few-or-mismatched-accepted', **d)
     mon.chk(len(params) == 3, 'fit:params-count', **d)
     mon.chk(not (params[2] < 0), 'fit:negative-autofluorescence', **d)
-    if not np.all(np.isfinite(params)) or params[0] <= 0:
+    if not np.all(np.isfinite(params)) or params[0] <= 0 or abs(params[1]) > 700:
+        # (|intercept| > 700: e^b is not representable in double precision, so e^b*x^m cannot be evaluated factor by factor)
         # a power law with non-positive exponent diverges at zero: "zero at zero" is unsatisfiable there.
         # Degenerate fits are counted; the driver judges them where the pairs are ordered by brightness.
         mon.ctx.counters['fit_degenerate'] += 1
